@@ -18,7 +18,7 @@ ASSUMPTIONS = ['resting sell orders are reduce-only (as the strategy layer submi
                'everything resting on a symbol is cancelled when its position closes (stub strategy)',
                'balances compared with relative tolerance 1e-9; decisions closer than 1e-9 relative to the threshold accept either '
                'outcome; submit->cancel must restore the quote balance (rel 1e-12: balances are re-rounded to floats after each decimal operation)']
-MIN_OBS = {'exact_split_sells': 100, 'session_state_comparisons': 2000, 'session_fills': 300, 'exact_boundary_cases': 100, 'histories': 300, 'ops': 5000, 'fills': 2000, 'sell_submits_after_cancelled_sell': 300,
+MIN_OBS = {'near_holding_sells': 30, 'dust_sells': 20, 'exact_split_sells': 100, 'session_state_comparisons': 2000, 'session_fills': 300, 'exact_boundary_cases': 100, 'histories': 300, 'ops': 5000, 'fills': 2000, 'sell_submits_after_cancelled_sell': 300,
            'reject_buy_agreed': 100, 'reject_sell_agreed': 100, 'near_threshold_accepts': 100, 'exact_holding_sells': 200,
            'state_comparisons': 5000}
 SYMS = ['BTC-USDT', 'ETH-USDT']
@@ -130,11 +130,20 @@ def _history(job):
     def do_fill(key):
         o = live.pop(key)
         hist.append(['execute', key])
+        held_before = float(mdl.base[o.symbol])
         w.execute(o)
         mdl.fill(key, o.symbol, o.side, o.type, o.qty, o.price)
         c('fills')
         c(f'fill:{o.side}:{o.type}')
-        if mdl.base[o.symbol] == 0 or w.pos[o.symbol].is_close:
+        # balances are doubles: the account's product qty x (1 - fee) may differ from the exact one in the last place. Within
+        # 4 ulp of the amounts involved the model takes the account's double, so that `sold everything` means the same thing
+        # on both sides (what is cancelled at a close follows the account's position, which the stub strategy reads)
+        sut_base = Decimal(repr(float(exch.assets[jh.base_asset(o.symbol)])))
+        if sut_base != mdl.base[o.symbol] and abs(float(sut_base - mdl.base[o.symbol])) <= 4 * math.ulp(
+                max(held_before, abs(float(o.qty)), float(sut_base), 1e-300)):
+            mdl.base[o.symbol] = sut_base
+            c('model_base_synchronised_within_4ulp')
+        if w.pos[o.symbol].is_close:
             for k2 in [k2 for k2, o2 in live.items() if o2.symbol == o.symbol]:
                 mdl.cancel(k2)
                 if live[k2].side == 'sell':
@@ -210,9 +219,23 @@ def _history(job):
                 typ = rng.choice(['MARKET', 'LIMIT', 'STOP', 'LIMIT', 'STOP'])
                 kind = rng.random()
                 held = w.pos[sym].qty
+                if kind < 0.15 and float(mdl.committed(sym, 'LIMIT')) == 0:
+                    typ = 'MARKET'
                 rest = float(mdl.committed(sym, 'LIMIT' if typ == 'MARKET' else typ))
                 free = held - rest
-                if kind < 0.35:
+                dust = None
+                if kind < 0.15 and typ == 'MARKET' and rest == 0:
+                    # ALMOST the holding: the holding floored to the usual 8 (or 6 / 10) decimals; what stays behind is dust,
+                    # but it is still held - and it is sold right afterwards
+                    d_ = rng.choice([8, 8, 6, 10])
+                    q = math.floor(held * 10 ** d_) / 10 ** d_
+                    if 0 < q < held:
+                        dust = True
+                        c('near_holding_sells')
+                    else:
+                        q = held
+                        c('exact_holding_sells')
+                elif kind < 0.35:
                     q = held                     # the exact holding
                     c('exact_holding_sells')
                 elif kind < 0.5 and free > 0:
@@ -228,6 +251,15 @@ def _history(job):
                     k = do_submit(sym, 'sell', typ, q, price, typ != 'MARKET' or rng.random() < 0.6)
                     if typ == 'MARKET':
                         do_fill(k)
+                    if dust:
+                        left = float(exch.assets[jh.base_asset(sym)])
+                        if w.pos[sym].qty != left:
+                            v('position_size_differs_from_base_balance',
+                              f'after selling {q} of {held}: position {w.pos[sym].qty!r}, base balance {left!r}')
+                        if left > 0:
+                            k2 = do_submit(sym, 'sell', 'MARKET', left, cur, rng.random() < 0.5)
+                            do_fill(k2)
+                            c('dust_sells')
             elif r < 0.62 and w.pos[sym].qty > 0:
                 # several resting sells of one kind that add up exactly (in decimal) to what is still free
                 typ = rng.choice(['LIMIT', 'STOP'])
